@@ -87,6 +87,11 @@ def cases(tier, seed):
                 sides_e = [["project_side", s, True, True] for s in SIDES]
                 for x, y, z in itertools.permutations(sides_e, 3):
                     out.append({"part": "C", "frame": fr, "calls": [x, y, z]})
+        for order in (0, 1):
+            for c in range(8):
+                out.append({"part": "D", "frame": fr, "call": ["project_corner", c], "order": order})
+            for side in SIDES:
+                out.append({"part": "D", "frame": fr, "call": ["project_side", side], "order": order})
         for assign in ([["left", "a"], ["top", "b"], ["front", "c"]], [["right", "a"], ["bottom", "b"], ["back", "c"]], [["left", "a"], ["right", "a"], ["top", "b"]]):
             out.append({"part": "B", "frame": fr, "what": "patches_at_corner", "assign": assign})
     return out
@@ -420,9 +425,52 @@ def run_part_c(case):
     return {"violations": violations, "outcome": "C:" + "+".join(c[0] for c in case["calls"]), "execs": 1, "states": 1, "transitions": len(case["calls"]), "nontrivial": True}
 
 
+def run_part_d(case):
+    """two operations sharing a face: addressing a corner/side of the SECOND one must still reach its vertices"""
+    import classy_blocks as cb
+
+    loft, pts = make_loft(case["frame"])
+    # second operation on the 'right' side of the first (shares corners 1, 2, 6, 5 of the first = 0, 3, 7, 4 of the second)
+    shift = pts[1] - pts[0]
+    p2 = np.array([pts[1], pts[1] + shift, pts[2] + shift, pts[2], pts[5], pts[5] + shift, pts[6] + shift, pts[6]])
+    second = cb.Loft(cb.Face(p2[:4]), cb.Face(p2[4:]))
+    for a in range(3):
+        second.chop(a, count=1)
+    violations = []
+    coords = {"frame": case["frame"], "call": case["call"], "order": case["order"]}
+    call = case["call"]
+    want = set()
+    if call[0] == "project_corner":
+        second.project_corner(call[1], "geo")
+        want = {call[1]}
+    else:
+        second.project_side(call[1], "geo", points=True)
+        want = set(bm.FACES[call[1]])
+    mesh = cb.Mesh()
+    for op in ((loft, second) if case["order"] == 0 else (second, loft)):
+        mesh.add(op)
+    path = os.path.join(runner.scratch_dir(), f"c10d_{os.getpid()}")
+    mesh.write(path)
+    d = foamdict.parse(open(path).read())
+    V = [np.array(v["pos"]) for v in d["vertices"]]
+    got = set()
+    for i, v in enumerate(d["vertices"]):
+        if v["project"]:
+            dd = [float(np.linalg.norm(V[i] - q)) for q in p2]
+            if min(dd) < 1e-6:
+                got.add(int(np.argmin(dd)))
+            else:
+                got.add(-1)
+    if got != want:
+        violations.append({"clause": "shared-corner-projection", "coords": coords, "detail": f"projected corners of the second operation: {sorted(got)}, addressed {sorted(want)}"})
+    return {"violations": violations, "outcome": "D:" + call[0], "execs": 1, "states": 1, "transitions": 1, "nontrivial": True}
+
+
 def run_case(case):
     if case["part"] == "A":
         return run_part_a(case)
+    if case["part"] == "D":
+        return run_part_d(case)
     if case["part"] == "C":
         return run_part_c(case)
     return run_part_b(case)
